@@ -409,9 +409,11 @@ fn body_json<'tcx>(tcx: TyCtxt<'tcx>, did: DefId, body: &Body<'tcx>, out: &mut S
                     (String::from("<indirect>"), String::new(), format!("{}", fty))
                 };
                 let a: Vec<String> = args.iter().map(|o| op_json(tcx, did, body, &o.node)).collect();
+                // a call through a function pointer: the operand that holds the pointer (a fn item passed by the caller of an inlined helper)
+                let fop = if matches!(fty.kind(), ty::FnDef(..)) { String::new() } else { format!(",\"fop\":{}", op_json(tcx, did, body, func)) };
                 let _ = write!(
                     out,
-                    "{{\"k\":\"call\",\"f\":{},\"r\":{},\"ga\":{},\"args\":[{}],\"dest\":{},\"t\":{},\"sp\":{},\"exp\":{}}}",
+                    "{{\"k\":\"call\",\"f\":{},\"r\":{},\"ga\":{},\"args\":[{}],\"dest\":{},\"t\":{},\"sp\":{},\"exp\":{}{}}}",
                     esc(&callee),
                     esc(&resolved),
                     esc(&gargs),
@@ -419,7 +421,8 @@ fn body_json<'tcx>(tcx: TyCtxt<'tcx>, did: DefId, body: &Body<'tcx>, out: &mut S
                     place_json(tcx, body, destination),
                     target.map(|t| t.as_usize() as i64).unwrap_or(-1),
                     sp,
-                    exp
+                    exp,
+                    fop
                 );
             }
             other => {
